@@ -89,6 +89,10 @@ impl Out {
         .expect("write case");
         self.count += 1;
     }
+    /// a named model term shared by several cases (written as a Coq Definition before the cases that use it)
+    pub(crate) fn def(&mut self, name: &str, term: &str) {
+        writeln!(self.w, "#DEF\t{}\t{}", name, term).expect("write def");
+    }
     /// a free-form statistics line (ignored by the model run, kept for the evidence)
     pub(crate) fn stat(&mut self, key: &str, value: &str) {
         writeln!(self.w, "#STAT\t{}\t{}", key, value).expect("write stat");
